@@ -174,6 +174,8 @@ structure PkgG where
   calcs : List (Str × Int) := []
   tables : List TableG := []
   comments : List CommentG := []
+  /-- (part, root element, names of the root's child elements in document order) -/
+  childOrder : List (Str × Str × List Str) := []
 deriving Inhabited
 
 def ctName : Str := sl "[Content_Types].xml"
@@ -336,6 +338,79 @@ def checkCalc (g : PkgG) (wb : Str) : Option String :=
             else some s!"calc-formula: calcChain entry {ls ref} (sheetId {sid}) is not a formula cell of {ls part}"
   go 0 g.calcs
 
+/-! ### element order inside `<worksheet>` / `<chartsheet>` (ECMA-376 CT_Worksheet, CT_Chartsheet) -/
+
+/-- the `xsd:sequence` of CT_Worksheet. `mc:AlternateContent` (markup compatibility wrapper the
+library emits for legacy controls) stands where `controls` / `oleObjects` stand; it is listed
+after `webPublishItems`, where the writer puts it. -/
+def wsSchemaOrder : List String :=
+  ["sheetPr", "dimension", "sheetViews", "sheetFormatPr", "cols", "sheetData", "sheetCalcPr",
+   "sheetProtection", "protectedRanges", "scenarios", "autoFilter", "sortState", "dataConsolidate",
+   "customSheetViews", "mergeCells", "phoneticPr", "conditionalFormatting", "dataValidations",
+   "hyperlinks", "printOptions", "pageMargins", "pageSetup", "headerFooter", "rowBreaks", "colBreaks",
+   "customProperties", "cellWatches", "ignoredErrors", "smartTags", "drawing", "legacyDrawing",
+   "legacyDrawingHF", "drawingHF", "picture", "oleObjects", "controls", "webPublishItems",
+   "mc:AlternateContent", "tableParts", "extLst"]
+
+/-- the `xsd:sequence` of CT_Chartsheet -/
+def csSchemaOrder : List String :=
+  ["sheetPr", "sheetViews", "sheetProtection", "customSheetViews", "pageMargins", "pageSetup",
+   "headerFooter", "drawing", "legacyDrawing", "legacyDrawingHF", "drawingHF", "picture",
+   "webPublishItems", "extLst"]
+
+/-- elements with maxOccurs > 1 -/
+def repeatable (x : String) : Bool := x == "conditionalFormatting" || x == "cols"
+
+def rankIn (schema : List String) (x : String) : Option Nat :=
+  let i := schema.idxOf x
+  if i < schema.length then some i else none
+
+/-- consecutive elements: strictly later in the sequence, or the same repeatable element -/
+def stepOk (schema : List String) (a b : String) : Bool :=
+  match rankIn schema a, rankIn schema b with
+  | some i, some j => i < j || (a == b && repeatable a)
+  | _, _ => false
+
+/-- the sequence check, carrying the previous element -/
+def okAfter (schema : List String) : Option String → List String → Bool
+  | _, [] => true
+  | none, b :: rest => (rankIn schema b).isSome && okAfter schema (some b) rest
+  | some a, b :: rest => stepOk schema a b && okAfter schema (some b) rest
+
+def chainOk (schema : List String) (l : List String) : Bool := okAfter schema none l
+
+/-- what a struct-driven writer emits: every field in declaration order, `count f` times -/
+def emitSeq (fields : List String) (count : String → Nat) : List String :=
+  fields.flatMap fun f => List.replicate (count f) f
+
+def ltB (schema : List String) (a b : String) : Bool :=
+  match rankIn schema a, rankIn schema b with
+  | some i, some j => i < j
+  | _, _ => false
+
+/-- every field is an element of the sequence and the declaration order is strictly the
+sequence order (all pairs) -/
+def fieldsFollow (schema : List String) : List String → Bool
+  | [] => true
+  | f :: fs => (rankIn schema f).isSome && fs.all (ltB schema f) && fieldsFollow schema fs
+
+def checkChildOrder (g : PkgG) : Option String :=
+  first? g.childOrder fun (part, root, kids) =>
+    let schema := if root == sl "worksheet" then some wsSchemaOrder
+                  else if root == sl "chartsheet" then some csSchemaOrder else none
+    match schema with
+    | none => none
+    | some sc =>
+      if chainOk sc (kids.map ls) then none
+      else
+        let names := kids.map ls
+        let bad := match names.find? (fun n => (rankIn sc n).isNone) with
+          | some n => s!"unknown element <{n}>"
+          | none => match (names.zip (names.drop 1)).find? (fun (p : String × String) => !stepOk sc p.1 p.2) with
+            | some p => s!"<{p.2}> after <{p.1}>"
+            | none => "order"
+        some s!"{ls part}: {bad} violates the sequence of CT_{if root == sl "worksheet" then "Worksheet" else "Chartsheet"}"
+
 /-- the named conjuncts of `WF`, in evaluation order -/
 def wfChecks : List (String × (PkgG → Option String)) := [
   ("zip-unique", fun g => (firstDup g.parts).map fun p => s!"duplicate zip entry {ls p}"),
@@ -390,6 +465,7 @@ def wfChecks : List (String × (PkgG → Option String)) := [
       fun d => s!"defined name {ls d.1} localSheetId {d.2} but {g.sheets.length} sheets"),
   ("styles", fun g => checkStyles g.styles),
   ("worksheet", fun g => first? g.wss (checkWs g)),
+  ("element-order", checkChildOrder),
   ("calc-chain", fun g => match workbookPart g with
       | none => none
       | some wb => checkCalc g wb),
